@@ -128,9 +128,9 @@ theorem C02_switch_invariant_is_live (P : Program) (depth : Node → Nat) (hp : 
 
 /-- the hypotheses follow from the executable check -/
 theorem C02_switch_hypotheses_from_check (P : Program) (dl : List (Node × Nat)) (hsw : SwP P)
-    (hy : ∀ cb n, P.cbYield cb n = 0) (hch : ∀ n, (P.g.attr n).isOneofChild = false) (hc : livePB P dl = true) :
+    (hy : ∀ cb n, P.cbYield cb n = 0) (hc : livePB P dl = true) :
     LiveP P (depthOf dl) :=
-  liveP_of_check dl hsw hy hch hc
+  liveP_of_check dl hsw hy hc
 
 /-- the runs of the theorem are runs of the model -/
 theorem C02_switch_runs_are_reachable (P : Program) (s : St) (h : LiveReach P s) : Reach P s := h.reach
